@@ -126,7 +126,7 @@ class Result:
 
 
 def call(app, method, path_info, *, headers=None, body=b"", content_type="application/octet-stream",
-         xml=None, prefix="/", wsgi=False, has_body=None):
+         xml=None, prefix="/", wsgi=False, has_body=None, on_read=None):
     """Drive one request through the real WebDAVApp._handle_request (coroutine driven directly)."""
     if wsgi:
         environ = mhttp.wsgi_environ(method, path_info, script_name=prefix.rstrip("/"), headers=headers,
@@ -136,7 +136,7 @@ def call(app, method, path_info, *, headers=None, body=b"", content_type="applic
     else:
         req = mhttp.AioRequest(method, path_info, prefix=prefix if prefix != "/" else "", headers=headers,
                                body=body, content_type=content_type,
-                               has_body=(xml is not None) if has_body is None else has_body)
+                               has_body=(xml is not None) if has_body is None else has_body, on_read=on_read)
         env = {"SCRIPT_NAME": prefix}
     saved = (Wd._readXmlBody, Wd._send_dav_responses, Wd._send_xml_response)
 
